@@ -30,6 +30,7 @@ CONSTANTS Ident,      \* "kitty" | "konsole" | "other"
           Bits,       \* z-index space (see AllocOutcomes)
           Fams,       \* layout families explored, subset of {"P","S","O","L","F","T","I"}
           WithBad,    \* explore RedrawBad
+          WithInv,    \* explore redraws after invalidating one of the widgets shown
           Dyn         \* explore NewWidget / DropWidget (otherwise all three widgets live from the start)
 
 ScrW == 8
@@ -288,7 +289,7 @@ DoRedraw(p, bad, inv) ==
      /\ UNCHANGED <<started, nxt>>
 
 \* inv = 0: widgets keep their cached canvases; inv = w: widget w was invalidated before rendering
-Redraw == \E p \in Params : started /\ Usable(p) /\ \E inv \in {0} \cup UsesOf[p] : DoRedraw(p, FALSE, inv)
+Redraw == \E p \in Params : started /\ Usable(p) /\ \E inv \in {0} \cup (IF WithInv THEN UsesOf[p] ELSE {}) : DoRedraw(p, FALSE, inv)
 
 \* A draw_screen call that fails inside urwid (canvas rows # size given: ValueError) still ran the
 \* cviews diff and its deletions.  Two such failures in a row can bring a widget's disguise back to
@@ -369,9 +370,17 @@ NoOrphanZ == \A i \in DOMAIN T.pl : T.pl[i].proto = "kitty" => \E w \in LiveKitt
 PlSet == Shown(T, GFX)
 View == <<PlSet, cv, cdis, wdis, scr, started, last, ulast, same, wdt, nxt, free, ok, taint>>
 
-ObsS == [pl |-> PlSet, cv |-> cv, started |-> started, last |-> last, ulast |-> ulast, same |-> same,
-         wdt |-> wdt, nxt |-> nxt, free |-> free, cdis |-> cdis, wdis |-> wdis, scr |-> (scr # <<>>)]
-\* edge dump for spec -> code replay: the operation, its argument and the state reached
-Dump == PrintT(<<"EDGE", ToJson([from |-> ObsS, op |-> [op |-> out'.op, arg |-> out'.arg, res |-> out'.res],
-                                  to |-> ObsS'])>>)
+\* Edge dump for spec -> code replay (MC_UrwidScreen_edges.cfg): explored under a COARSE view
+\* (layout drawn last x started x urwid has a line cache x liveness of the widgets), so that every
+\* pair (layout on screen, next operation / next layout) is generated once.  The replay needs the
+\* operation sequences only - each real step is judged by Trace_UrwidScreen, not by the edge.
+CoarseObs == [last |-> last, started |-> started, cache |-> scr # <<>>, taint |-> taint,
+              live |-> [w \in Slots |-> IF ~wdt[w].alive THEN 0 ELSE IF wdt[w].dropped THEN 2 ELSE 1]]
+CoarseView == CoarseObs
+Dump == PrintT(<<"EDGE", ToJson([from |-> CoarseObs, op |-> [op |-> out'.op, arg |-> out'.arg, res |-> out'.res],
+                                  to |-> CoarseObs'])>>)
+\* the layouts themselves, printed once: the driver builds the real urwid trees from these
+LayoutTable == \A p \in Params : PrintT(<<"LAYOUT", ToJson([p |-> p, lay |-> Lay(p)])>>)
+InitDump == Init /\ LayoutTable /\ PrintT(<<"INIT", ToJson(CoarseObs)>>)
+SpecDump == InitDump /\ [][Next]_vars
 =============================================================================
